@@ -1269,3 +1269,93 @@ m("C17", "refactor-decode-var", UT,
   '''    return body.decode(encoding), encoding, content_type''',
   '''    return (body.decode(encoding), encoding, content_type)''',
   expect="silent")
+
+# ---- C15 -------------------------------------------------------------------
+ZT = "zpt/template.py"
+LO = "loader.py"
+m("C15", "option-dropped-from-key", ZT,
+  "            'enable_data_attributes',\n            'enable_comment_interpolation',",
+  "            'enable_comment_interpolation',")
+m("C15", "bool-attrs-not-hashed", ZT,
+  "        for attr in ('boolean_attributes', 'implicit_i18n_attributes'):\n            v = getattr(self, attr)\n            if v is not None:",
+  "        for attr in ('implicit_i18n_attributes',):\n            v = getattr(self, attr)\n            if v is not None:")
+m("C15", "new-option-unhashed", ZT,
+  "            trim_attribute_space=self.trim_attribute_space,",
+  "            trim_attribute_space=self.trim_attribute_space or self.compact_tags,")
+m("C15", "write-final-name-directly", LO,
+  '''            os.rename(fn, name)
+            log.debug("compiling %s into byte-code..." % filename)''',
+  '''            with open(name, 'wb') as out:
+                out.write(header + encoded)
+            os.remove(fn)
+            log.debug("compiling %s into byte-code..." % filename)''')
+m("C15", "temp-in-system-tmp", LO,
+  "                prefix=base, suffix='.tmp', dir=self.path)",
+  "                prefix=base, suffix='.tmp')")
+m("C15", "temp-named-py", LO,
+  "                prefix=base, suffix='.tmp', dir=self.path)",
+  "                prefix=base, suffix='.py', dir=self.path)")
+m("C15", "rename-before-close", LO,
+  '''            try:
+                try:
+                    temp.write(header)
+                    temp.write(encoded)
+                finally:
+                    temp.close()
+            except BaseException:
+                os.remove(fn)
+                raise
+
+            os.rename(fn, name)''',
+  '''            try:
+                os.rename(fn, name)
+                try:
+                    temp.write(header)
+                    temp.write(encoded)
+                finally:
+                    temp.close()
+            except BaseException:
+                os.remove(fn)
+                raise
+''')
+m("C15", "no-cleanup-on-failure", LO,
+  '''            except BaseException:
+                os.remove(fn)
+                raise
+''',
+  '''            except BaseException:
+                raise
+''')
+m("C15", "lock-not-released-on-error", LO,
+  '''            return self._load(base, name)
+        finally:
+            release_lock()''',
+  '''            result = self._load(base, name)
+        except OSError:
+            raise
+        release_lock()
+        return result''')
+m("C15", "lookup-by-prefix", LO,
+  '''        path = os.path.join(self.path, filename)
+        if os.path.exists(path):''',
+  '''        path = os.path.join(self.path, filename)
+        import glob
+        found = glob.glob(path[:-10] + '*')
+        if found:
+            path = found[0]
+        if os.path.exists(path):''')
+m("C15", "published-before-exec", LO,
+  '''                module = module_from_spec(spec)
+                loader.exec_module(module)
+                sys.modules[base] = module''',
+  '''                module = module_from_spec(spec)
+                sys.modules[base] = module
+                loader.exec_module(module)''')
+m("C15", "body-not-hashed", TP,
+  "        sha.update(body.encode('utf-8', 'ignore'))\n", "")
+m("C15", "key-of-other-names", TP,
+  "        digest = self.digest(body, names)\n        program = self._cook(body, digest, names)",
+  "        digest = self.digest(body, ())\n        program = self._cook(body, digest, names)")
+m("C15", "refactor-digest-loop", ZT,
+  "            'strict',\n            'mode',",
+  "            'mode',\n            'strict',", expect="silent")
